@@ -540,6 +540,14 @@ pub mod predicates {
             gas_used: cumulative_gas_used,
         })
     }
+
+    #[cfg(all(kani, fuellabs_fuel_vm_verif))]
+    mod verif {
+        include!(concat!(
+            env!("FUELLABS_FUEL_VM_VERIF_DIR"),
+            "/incrate/vm_predicates.rs"
+        ));
+    }
 }
 
 impl<M, S, Tx, Ecal, V> Interpreter<M, S, Tx, Ecal, V>
